@@ -327,44 +327,64 @@ where
     {
         self.validate_computed_version_or_reset(other.version())?;
 
+        // Position in `other` at which the next batch resumes. Re-deriving it from the
+        // last output on every batch never advances once a batch ends inside a run.
+        let mut resume_at: Option<usize> = None;
+
         self.repeat_until_complete(exit, |this| {
-            let skip = if this.len() > 0 {
-                this.collect_last()
-                    .unwrap()
-                    .to_usize()
-                    .min(max_from.to_usize())
-            } else {
-                0
-            };
-
-            let end = this.batch_end(other.len());
-            if skip >= end {
-                return Ok(());
-            }
-
-            let mut prev_i = None;
-            let batch = other.collect_range_at(skip, end);
-
-            if let Some(&first_target) = batch.first() {
-                this.truncate_if_needed(first_target)?;
-            }
-
-            for (j, i) in batch.into_iter().enumerate() {
-                let v = V::T::from(skip + j);
-                debug_assert!(prev_i.is_none_or(|prev| prev <= i));
-                if prev_i.is_some_and(|prev_i| prev_i == i) {
-                    continue;
+            let first_batch = resume_at.is_none();
+            let mut pos = resume_at.unwrap_or_else(|| {
+                if this.len() > 0 {
+                    this.collect_last()
+                        .unwrap()
+                        .to_usize()
+                        .min(max_from.to_usize())
+                        .min(other.len())
+                } else {
+                    0
                 }
-                if this.collect_one(i).is_none_or(|old_v| old_v > v) {
-                    // Pad gaps with the current value so empty periods get zero-length ranges
-                    let i_usize = i.to_usize();
-                    while this.len() < i_usize {
+            });
+
+            if first_batch {
+                // Everything up to the target of position `pos - 1` is determined by
+                // positions below `pos` and stays; later entries (including the padding
+                // of skipped targets, which points at the next present one) are redone.
+                let keep = if pos > 0 {
+                    other.collect_one_at(pos - 1).unwrap().to_usize() + 1
+                } else {
+                    0
+                };
+                this.truncate_if_needed_at(keep)?;
+            }
+
+            // `pos` and `end` are positions in `other`, not output indices, and a chunk of
+            // positions may yield fewer outputs than positions: keep reading chunks until
+            // the batch limit is reached or the source is exhausted.
+            let cap = this.batch_end(usize::MAX) - this.len();
+            let mut prev_i = None;
+            while pos < other.len() && !this.batch_limit_reached() {
+                let end = pos.saturating_add(cap).min(other.len());
+                let batch = other.collect_range_at(pos, end);
+
+                for (j, i) in batch.into_iter().enumerate() {
+                    let v = V::T::from(pos + j);
+                    debug_assert!(prev_i.is_none_or(|prev| prev <= i));
+                    if prev_i.is_some_and(|prev_i| prev_i == i) {
+                        continue;
+                    }
+                    if this.collect_one(i).is_none_or(|old_v| old_v > v) {
+                        // Pad gaps with the current value so empty periods get zero-length ranges
+                        let i_usize = i.to_usize();
+                        while this.len() < i_usize {
+                            this.push(v);
+                        }
                         this.push(v);
                     }
-                    this.push(v);
+                    prev_i.replace(i);
                 }
-                prev_i.replace(i);
+                pos = end;
             }
+            resume_at = Some(pos);
 
             Ok(())
         })
